@@ -43,6 +43,8 @@ import CijProofs.Properties.C15
 import CijProofs.Properties.C16
 import Generated.LazyDeps
 import Generated.StateSpec
+import CijProofs.Lemmas.TasksSource
+import Generated.FullModulusSpec
 set_option linter.unusedSectionVars false
 namespace Cij.C14
 open Cij Cij.Memo Cij.LazyGraph
@@ -438,5 +440,28 @@ theorem c14_fill_zero_component_first :
 `ignore_rank` it would be accepted and the component stays absent). -/
 theorem c14_fill_not_idempotent_zero_component :
     Fill.fill envU (some "my.rel") PU [("c11", [300]), ("c22", [300])] = .error .refuseRank := by decide +kernel
+
+/-! #### ties shared with other properties
+
+The statement of this property also rests on code whose translation is owned by another property's file; the theorems are restated
+here so that this property's obligations are re-checked against those files too (a change there breaks THIS check's proof as well). -/
+
+/-- `cij/core/tasks.py` as translated on this run: a non-shear task is identified by the two strain columns the source names,
+task equality is at rounding level (`_STRAIN_RTOL ≤ 1e-9`, `atol = 0`), and `calculate()` feeds a shear task from the isothermal store -/
+theorem c14_tasks_are_source {α : Type} [Add α] [Div α] (strain : Cij.Tasks.SField α) (key : Cij.Modulus) :
+    (match Generated.makeParamCols with
+     | [c0, c1] => Cij.Tasks.create strain key =
+        if key.isShear then .shear strain key
+        else .nonshear key.calcType (Cij.Tasks.component strain (Cij.Tasks.colOf key c0)) (Cij.Tasks.component strain (Cij.Tasks.colOf key c1))
+     | _ => False) ∧
+    (0 < Generated.strainRtol.1 ∧ Generated.strainRtol.1 * 1000000000 ≤ Generated.strainRtol.2) ∧
+    Generated.tasksWiringCanonical = true :=
+  ⟨Cij.Tasks.create_is_source strain key, Cij.Tasks.strain_rtol_tight, rfl⟩
+
+/-- `full_modulus.py` / `_calculate_pressure_static` as translated on this run: default fit orders, degree offset, and the bodies of
+`fit_modulus`, `get_axial_strains`, `get_static_modulus`, `modulus_adiabatic`, `modulus_isothermal` are the ones the model implements -/
+theorem c14_full_modulus_is_source :
+    Generated.fitModulusDegOffset = 1 ∧ Generated.fullModulusBodiesCanonical = true ∧
+    Generated.fitModulusDefaultOrder = 2 ∧ Generated.staticPressureDefaultOrder = 3 := by decide
 
 end Cij.C14
